@@ -31,12 +31,15 @@
 //
 //   quick   : R = 4, D = 2;  L = 4 for 8-bit limits, for Max < 1000 and for limits wider than 16 bit (their
 //             boundaries come from N);  L = 5 for 1000 <= Max <= 65534;  L = 6 for the u16/i16 type limits,
-//             Max = 10000, Max = 65535 (u16) and the syntax-only families.
-//   thorough: R = 5, D = 100; L one larger for the core families (5 / 7).
+//             Max = 65535 (u16) and the syntax-only families. The two seq<> contexts are run for digit
+//             lengths <= 4 and for N only (direct context: all lengths).
+//   thorough: R = 5, D = 100; L one larger for the core families (5 / 7); seq<> contexts for all lengths.
 //
 // Every case = (family, input) is run on an exact-size buffer that ends at a PROT_NONE page, through
 //   parse< R, A, normal, apply_mode, rewind_mode::required >             (cursor observed after failure)
-//   parse< seq< R, eof >, ... >   and   parse< seq< R, one<'x'> >, ... > (consumption inside a sequence)
+//   parse< seq< R, eof >, ... >   and   parse< seq< R, one<'x'> >, ... > (consumption inside a sequence; for
+//   the rule families proper, not for the *_old+action and unsigned_rule+maximum_action variants whose rule
+//   is the same unsigned_rule / plus<digit>)
 // A fault in the guard page is reported as C03 (over-read) and the case is re-run with one readable NUL
 // byte after the input so that its functional result is still judged.
 //
@@ -396,12 +399,12 @@ static const char* tname()
    return "?";
 }
 
-// digit bound for a target whose largest magnitude is lim: one digit more than the limit has, at least 4;
-// limits wider than `cap - 1` digits get 4 (their boundaries come from the neighbourhood list)
+// digit bound for a target whose largest magnitude is lim: one digit more than the limit has, at least 4, at
+// most cap; limits wider than 16 bit get 4 (their boundaries come from the neighbourhood list)
 static int L_for( u128 lim, int cap )
 {
    const int d = ndigits( lim ) + 1;
-   return d < 4 ? 4 : ( d > cap ? 4 : d );
+   return d < 4 ? 4 : ( d > cap ? ( lim <= 65535 ? cap : 4 ) : d );
 }
 
 static void add( const std::string& type, const std::string& rule, const std::string& suffix, Syn syn, Policy pol, bool has_value, u128 maxpos, u128 maxneg, int L, bool rich, bool seqctx, Obs ( *run )( const std::string&, int, bool, char, long ) )
@@ -491,8 +494,8 @@ static void register_all()
    reg_signed< std::int64_t >();
 
    reg_max_list< u8, 5, 0, 1, 9, 10, 11, 99, 100, 101, 127, 128, 199, 200, 249, 250, 254, 255 >();
-   reg_max_list< u16, 5, 0, 9, 10, 99, 100, 101, 255, 256, 999, 1000, 9999, 10001, 65529, 65530, 65534 >();
-   reg_max_list< u16, 6, 10000, 65535 >();
+   reg_max_list< u16, 5, 0, 9, 10, 99, 100, 101, 255, 256, 999, 1000, 9999, 10000, 10001, 65529, 65530, 65534 >();
+   reg_max_list< u16, 6, 65535 >();
    reg_max_list< u32, 5, 0, 9, 10, 99, 100, 101, 255, 256, 999, 1000, 65535, 65536, 999999999u, 1000000000u, 1000000001u, 4294967289u, 4294967290u, 4294967294u, 4294967295u >();
    reg_max_list< u64, 5, 0, 9, 10, 99, 100, 101, 255, 256, 999, 1000, 4294967295ull, 4294967296ull, 9999999999999999999ull, 10000000000000000000ull, 10000000000000000001ull, 18446744073709551609ull, 18446744073709551610ull, 18446744073709551614ull, 18446744073709551615ull >();
 }
@@ -644,7 +647,7 @@ static int judge( const Family& f, const std::string& s, int ctx, const Expect& 
 
 static std::map< std::string, int > g_sampled;
 
-static bool eval_case( const Family& f, const std::string& s )
+static bool eval_case( const Family& f, const std::string& s, bool allow_seq = true )
 {
    ++vf::st.evaluations;
    const Expect e = orc_expect( f, s );
@@ -654,7 +657,7 @@ static bool eval_case( const Family& f, const std::string& s )
    int bad = judge( f, s, 0, e, o );
    // sequence contexts: only meaningful (and only reported) when the rule on its own behaved, otherwise the
    // same root cause would be reported twice
-   if( f.seqctx && !( bad & BAD_OTHER ) ) {
+   if( f.seqctx && allow_seq && !( bad & BAD_OTHER ) ) {
       for( int ctx = 1; ctx <= 2; ++ctx ) {
          const Obs oc = run_ctx( f, s, ctx, e, sentinel, overread );
          bad |= judge( f, s, ctx, e, oc );
@@ -760,7 +763,7 @@ int main( int argc, char** argv )
    const std::vector< std::string > basic_tr = { "", "x" };
    const std::vector< std::string > neigh_tr = { "", "x" };
 
-   vf::st.note = std::string( "exhaustive per family (" ) + std::to_string( g_fams.size() ) + " families = every integer.hpp rule/action x u8..u64/i8..i64 x Max lists): prefix+digits+trailer for ALL digit strings of length 0..L; quick L = 4 (8-bit and wider-than-16-bit limits, Max<1000), 5 (1000<=Max<=65534), 6 (u16/i16 type limits, Max 10000 and 65535, syntax-only families); thorough: L+1 for the core families (syntax-only, type-limit, Max in {9,100,type max}); core families use 6 prefixes x 8 trailers up to digit length " + ( th ? "5" : "4" ) + ", everything else 3 signs x {end,'x'}; plus boundary neighbourhood list (" + std::to_string( neigh.size() ) + " numerals: 2^{7,8,15,16,31,32,63,64}+-" + std::to_string( D ) + ", 10^k+-1 k<=21, every Max+-2, each with a digit appended/prepended/replaced) x 3 signs x 2 trailers for every family; each case run direct + inside seq<R,eof> and seq<R,one<x>> with rewind_mode::required on a guard-page-terminated exact-size buffer";
+   vf::st.note = std::string( "exhaustive per family (" ) + std::to_string( g_fams.size() ) + " families = every integer.hpp rule/action x u8..u64/i8..i64 x Max lists): prefix+digits+trailer for ALL digit strings of length 0..L; quick L = 4 (8-bit and wider-than-16-bit limits, Max<1000), 5 (1000<=Max<=65534), 6 (u16/i16 type limits, Max 65535, syntax-only families); thorough: L+1 for the core families (syntax-only, type-limit, Max in {9,100,type max}); core families use 6 prefixes x 8 trailers up to digit length " + ( th ? "5" : "4" ) + ", everything else 3 signs x {end,'x'}; plus boundary neighbourhood list (" + std::to_string( neigh.size() ) + " numerals: 2^{7,8,15,16,31,32,63,64}+-" + std::to_string( D ) + ", 10^k+-1 k<=21, every Max+-2, each with a digit appended/prepended/replaced) x 3 signs x 2 trailers for every family; each case run direct + inside seq<R,eof> and seq<R,one<x>> (" + ( th ? "all lengths" : "digit length<=4 and neighbourhood list" ) + ") with rewind_mode::required on a guard-page-terminated exact-size buffer";
 
    long global = 0;
    long tick = 0;
@@ -789,7 +792,7 @@ int main( int argc, char** argv )
                   s.assign( p );
                   s.append( digs, size_t( len ) );
                   s.append( t );
-                  eval_case( f, s );
+                  eval_case( f, s, th || len <= 4 );
                   vf::count( "cases_exhaustive_digits" );
                   if( ( ++tick & 4095 ) == 0 && vf::out_of_time() ) stop = true;
                }
